@@ -19,6 +19,7 @@ package generic
 import (
 	"bytes"
 	"fmt"
+	"io"
 	"sync"
 	"unsafe"
 
@@ -1049,17 +1050,21 @@ func (self *Node) deleteChild(path Path) Node {
 		if err != nil {
 			return errNode(meta.ErrRead, "", err)
 		}
-		if id >= size {
+		if id < 0 || id >= size {
 			return errNotFound
 		}
 		tt = et
-		if err := p.ModifyI32(p.Read-4, int32(size-1)); err != nil {
-			return errNode(meta.ErrWrite, "", err)
-		}
 		if d := thrift.TypeSize(et); d > 0 {
 			s = p.Read + d*id
 			e = s + d
+			if e > len(p.Buf) {
+				return errNode(meta.ErrRead, "", io.EOF)
+			}
+			if err := p.ModifyI32(p.Read-4, int32(size-1)); err != nil {
+				return errNode(meta.ErrWrite, "", err)
+			}
 		} else {
+			cntPos := p.Read - 4
 			for i := 0; i < id; i++ {
 				if err := p.Skip(et, UseNativeSkipForGet); err != nil {
 					return errNode(meta.ErrRead, "", err)
@@ -1070,6 +1075,10 @@ func (self *Node) deleteChild(path Path) Node {
 				return errNode(meta.ErrRead, "", err)
 			}
 			e = p.Read
+			// the element exists: only now shrink the count
+			if err := p.ModifyI32(cntPos, int32(size-1)); err != nil {
+				return errNode(meta.ErrWrite, "", err)
+			}
 		}
 	case thrift.MAP:
 		kt, et, size, err := p.ReadMapBegin()
@@ -1080,9 +1089,8 @@ func (self *Node) deleteChild(path Path) Node {
 		if id == nil {
 			return errNode(meta.ErrInvalidParam, "", nil)
 		}
-		if err := p.ModifyI32(p.Read-4, int32(size-1)); err != nil {
-			return errNode(meta.ErrWrite, "", err)
-		}
+		cntPos := p.Read - 4
+		found := false
 		tt = et
 		for i := 0; i < size; i++ {
 			s = p.Read
@@ -1095,8 +1103,16 @@ func (self *Node) deleteChild(path Path) Node {
 			}
 			e = p.Read
 			if bytes.Equal(key, id) {
+				found = true
 				break
 			}
+		}
+		if !found {
+			return errNotFound
+		}
+		// the pair exists: only now shrink the count
+		if err := p.ModifyI32(cntPos, int32(size-1)); err != nil {
+			return errNode(meta.ErrWrite, "", err)
 		}
 	}
 
